@@ -125,7 +125,7 @@ PROPS = {
     "C19": {
         "title": "Idle/empty/finished queries tell the truth",
         "lean": ["TopsimProps.C19", "TopsimProofs.Bridge.Queries"],
-        "streams": [("default", 24, 300), ("chaotic", 12, 200), ("clusterops", 20, 400), ("tiering", 10, 150), ("tierback", 8, 100), ("shutdown", 12, 150), ("edge", 22, 200)],
+        "streams": [("default", 24, 300), ("chaotic", 12, 200), ("clusterops", 20, 400), ("tiering", 10, 150), ("tierback", 8, 100), ("shutdown", 12, 150), ("edge", 22, 200), ("fracunits", 12, 150)],
         "monitor": ["C19"],
     },
 }
